@@ -368,3 +368,41 @@ def check_guards(ctx, rid, prop):
     r.stat('entries', len(tab))
     r.floor(found, max(1, int(len(tab) * 0.8)), 'reviewed guarded actions found in the tree')
     return r
+
+
+# ------------------------------------------------------------------------------------------------ write census
+
+WRITES = os.path.join(HERE, 'rules', 'writes.json')
+
+
+def write_sites(F, fn_name, owner, field):
+    """statements in `fn_name` (and its closures) that assign the field, incl. compound assignments"""
+    out = []
+    for f in _family(F, fn_name):
+        for bi, si, pl, rv, ln in f.stmts():
+            if core.write_target(f, pl) == (owner, field):
+                out.append((f, bi, ln))
+    return out
+
+
+def check_writes(ctx, rid, prop):
+    """reviewed state updates: the function still assigns the field at (at least) the reviewed number of sites"""
+    r = ctx.rule(rid, 'PAIR', 'write census: each reviewed bookkeeping update is still performed (a dropped assignment lowers the site count)')
+    F = ctx.facts
+    with open(WRITES) as fh:
+        tab = [e for e in json.load(fh) if prop in e['props']]
+    found = 0
+    for e in tab:
+        fam = _family(F, e['fn'])
+        if not fam:
+            r.ok('absent|%s|%s' % (e['fn'], e['field']), '', 'function not present in this configuration (not a violation)')
+            continue
+        found += 1
+        owner, field = e['field'].rsplit('.', 1)
+        sites = write_sites(F, e['fn'], owner, field)
+        ok = len(sites) >= e['sites']
+        r.check(ok, 'write|%s|%s' % (e['fn'].replace('proto::streams::', ''), field), fam[0].file,
+                '%s assigns %s at %d site(s) (reviewed: %d). %s' % (e['fn'].split('::')[-1], field, len(sites), e['sites'], e['why']))
+    r.stat('entries', len(tab))
+    r.floor(found, max(1, int(len(tab) * 0.8)), 'reviewed writers found in the tree')
+    return r
